@@ -612,7 +612,11 @@ def obj2bytes(obj):
     elif isinstance(obj, tuple):
         return obj2bytes(list(obj))
     elif isinstance(obj, list):
-        return b"".join(obj2bytes(o) for o in obj)
+        # Prefix each item with its length. Plain concatenation is
+        # ambiguous, e.g. [1, 20.5] and [1.02, 0.5] both gave b"1.020.5".
+        items = [obj2bytes(o) for o in obj]
+        return b"".join(str(len(it)).encode("utf-8") + b":" + it
+                        for it in items)
     elif isinstance(obj, dict):
         return obj2bytes(sorted(obj.items()))
     elif isinstance(obj, lmfit.parameter.Parameter):
